@@ -27,7 +27,7 @@ use std::{
 use crate::{
     key::Type,
     source::{OwnedDirEntry, Source},
-    utils::{Condvar, Mutex},
+    utils::{Condvar, Mutex, OwnedKey},
     SharedString,
 };
 
@@ -44,6 +44,7 @@ enum CacheMessage {
 
     Clear,
     AddAsset(AssetReloadInfos),
+    RemoveAsset(OwnedKey),
 }
 unsafe impl Send for CacheMessage where crate::cache::AssetMap: Sync {}
 
@@ -189,6 +190,11 @@ impl HotReloader {
         let _ = self.sender.send(CacheMessage::AddAsset(infos));
     }
 
+    pub(crate) fn remove_asset(&self, id: SharedString, type_id: std::any::TypeId) {
+        let key = OwnedKey::new_with(id, type_id);
+        let _ = self.sender.send(CacheMessage::RemoveAsset(key));
+    }
+
     pub(crate) fn clear(&self) {
         let _ = self.sender.send(CacheMessage::Clear);
     }
@@ -254,6 +260,7 @@ fn hot_reloading_thread(
                 }
                 Ok(CacheMessage::Clear) => cache.clear_local_cache(),
                 Ok(CacheMessage::AddAsset(infos)) => cache.add_asset(infos),
+                Ok(CacheMessage::RemoveAsset(key)) => cache.remove_asset(key),
                 Err(channel::TryRecvError::Empty) => break,
                 // The cache was dropped, we can stop now
                 Err(channel::TryRecvError::Disconnected) => break 'reload,
